@@ -777,11 +777,14 @@ static void elem_fn (long idx) {
   off_t from = g_from = lseek (2, 0, SEEK_END);
   if (g_watchdog_ms > 0) { pthread_t wd; pthread_create (&wd, 0, watchdog_fn, 0); pthread_detach (wd); }
   g_body = EL[idx].body;
-  for (long it = 0; it < g_iters; it++) {
+  /* the queue body is cheap and its races (e.g. a slot copied outside the lock) need a wrap-around to
+   * coincide with the copy: give it four times the iterations */
+  long iters = g_iters * (g_body == 2 ? 4 : 1);
+  for (long it = 0; it < iters; it++) {
     g_variant = EL[idx].variant;
     body ();
   }
-  vx_count (5, g_iters);
+  vx_count (5, iters);
   c19_tsan_what = g_bodyname; c19_tsan_variant = g_variant;
   scan_tsan (from);
 }
